@@ -40,6 +40,10 @@ type sentinelErr struct{ id int }
 
 func (s *sentinelErr) Error() string { return "c12-sentinel-error" }
 
+// Unwrap: the errors the recording functions return wrap an unknown-identifier error, as the error of a helper that
+// rendered a snippet does. A function's error fails the render whatever it wraps and wherever the call stands.
+func (s *sentinelErr) Unwrap() error { return &plush.ErrUnknownIdentifier{ID: "c12wrapped"} }
+
 var (
 	tAny      = reflect.TypeOf((*interface{})(nil)).Elem()
 	tErr      = reflect.TypeOf((*error)(nil)).Elem()
@@ -642,7 +646,9 @@ type Case struct {
 }
 
 var routes = []string{"", "ptr", "index", "key", "method", "methodv"}
-var uses = []string{"", "silent", "let", "cap"}
+
+// the last three stand where an unknown identifier would be forgiven: a function's error is not
+var uses = []string{"", "silent", "let", "cap", "if", "not", "or"}
 
 const blockSrc = `B<%= cvBlk %>E`
 const blockText = "B7E"
@@ -670,6 +676,10 @@ func (c Case) validate() string {
 	}
 	switch c.Use {
 	case "", "silent", "cap":
+	case "if", "not", "or":
+		if c.Block {
+			return "a call with a block is not written inside a condition"
+		}
 	case "let":
 		if !strings.Contains(c.Sig.Res, "T") || c.Sig.RT == "nilany" {
 			return "use let needs a first result that is not nil"
@@ -731,6 +741,12 @@ func (c Case) Template() string {
 		return "[<% let zv = " + call + " %>][<%= zv %>]"
 	case "cap":
 		return "[<%= zcap(" + call + ") %>]"
+	case "if":
+		return "[<%= if (" + call + ") { %>yes<% } else { %>no<% } %>]"
+	case "not":
+		return "[<%= !" + call + " %>]"
+	case "or":
+		return "[<%= " + call + " || false %>]"
 	}
 	return "[<%= " + call + " %>]"
 }
@@ -1139,6 +1155,18 @@ func checkCase(r *vk.Run, c Case) *vk.Fail {
 		if c.Sig.anyErr() && e.capSeen[0] != wantV || !reflect.DeepEqual(e.capSeen[0], wantV) {
 			return fail("the call's value was %#v, the first result is %#v", e.capSeen[0], wantV)
 		}
+	}
+	if c.Use == "if" || c.Use == "not" || c.Use == "or" {
+		if c.Sig.anyErr() {
+			return nil
+		}
+		// the call's value tested: no result, nil and "" are falsy, every other first result is truthy (C07)
+		truthy := hasT && c.Sig.RT != "zstr" && c.Sig.RT != "nilany"
+		wantOut := map[string]map[bool]string{"if": {true: "[yes]", false: "[no]"}, "not": {true: "[false]", false: "[true]"}, "or": {true: "[true]", false: "[false]"}}[c.Use][truthy]
+		if res.Out != wantOut {
+			return fail("output must be %q (the first result tested)", wantOut)
+		}
+		return nil
 	}
 	switch {
 	case c.Use == "silent":
@@ -2531,6 +2559,9 @@ func genCase(t *rapid.T, fit map[string][]string) Case {
 		if c.Use == "let" && (!strings.Contains(s.Res, "T") || s.RT == "nilany") {
 			c.Use = "cap"
 		}
+		if (c.Use == "if" || c.Use == "not" || c.Use == "or") && c.Block {
+			c.Use = ""
+		}
 	}
 	return c
 }
@@ -2571,6 +2602,9 @@ func routeMatrix() []Case {
 				}
 				for li, args := range lists {
 					for _, blk := range []bool{false, true} {
+						if blk && (use == "if" || use == "not" || use == "or") {
+							continue
+						}
 						w := allWrapped(len(args))
 						if (li+len(out))%3 == 0 {
 							w = 0
@@ -2586,7 +2620,7 @@ func routeMatrix() []Case {
 
 // ---- the test ---------------------------------------------------------------------------
 
-const rule = "Signatures: 0-3 fixed parameters from {string,int,float64,bool,interface{},*T,[]int} (core; the slot matrix, the arity matrix and the random phases add fmt.Stringer, error, int64, a named string type, []interface{}, a struct by value, func(int) int), then optionally a trailing options map (map[string]interface{} | hctx.Map) and/or a helper context (plush.HelperContext struct | hctx.HelperContext interface), or a variadic tail (...int|...string|...interface{}|...fmt.Stringer); results (), (T), (T,error) and (error) with nil and non-nil error, T in {string,int,interface{}} returning a fixed non-zero value, plus T returning the zero value (0, the empty string, a nil interface{}) and interface{} returning an ERROR VALUE (generated but not asserted: whether that is the call's value or a failing call is not settled by the statement - excluded class any-result-holding-error). The function is built with reflect.MakeFunc (twelve signatures also exist as hand-written methods) and records every invocation (received values, HasBlock(), Block() called twice). Calls: 0-6 arguments from {string, int, float, true, false, nil, hash literal, array literal, context variables: string, int, float64, bool, *T, typed nil *T, []int, int8, named string, hctx.Map} (core) plus {typed nil map, typed nil slice, error value, fmt.Stringer, struct value, []interface{}, func value, int64, template.HTML, uint, and the expressions a + b, string + string, a == b, !false, slice[i], pointer.Field, map[key], (n)}, literal values depend on the position; each argument optionally wrapped in an order-recording identity helper; with and without a block. ROUTES to the function: by name, through a pointer to the func, as element of a slice (tgtFnArr[1](...), decoys around it), as value of a map, as method through a pointer and through a struct value held in the context. USES of the call's value: emitted, silent tag (must emit nothing), let then emitted by a later tag, argument of a recording helper (the TYPED first result must arrive). (E1) every parameter slot type (fixed at positions 0-2, options map, helper context, variadic element 0-2) x every argument kind x block x wrapped/unwrapped; (E2) arity matrix: 0-3 fixed x 12 tails x 21 result shapes x 0..N+1 well-typed arguments x block x wrapped/unwrapped, parameter types rotated; (E4) 12 method signatures x 6 routes x 4 uses x (0..N+1 well-typed arguments + last slot with every core kind) x block; (E5) 21 result shapes x 4 uses x 3 tails x block; (E3) full product of all signatures with <= K core fixed parameters x 12 tails with all calls of <= n arguments of the 18 core kinds x block; (R) random signature x call x route x use, arguments biased to fit. Oracle = reference binder from the statement: invoked exactly once with exactly the supplied values in order (nil => zero value, omitted trailing map => a map that is empty at the moment of the call, and the recorder writes an entry into every empty map it receives, as option-defaulting helpers do, omitted helper context => HasBlock()==block given and Block() renders the block, both times it is called, variadic gets the rest), or not invoked and an error containing the function (method) name (too many arguments / not assignable); first result is the value; non-nil error => errors.Is. Arguments evaluated at most once, left to right, on every path; exactly once on success. Unspecified (not asserted beyond evaluation order): fewer arguments than fixed parameters. Non-trivial = specified and (at least one argument or an auto-supplied parameter). Distinct by signature + template. SEQUENCES: one call site tgtFn(ARGS) is executed 2-3 times within one render, the callee resolving to a recording function of a different signature each time (loop: for (tgtFn) in fns; let: for (i) in idx { let tgtFn = fns[i] }; ufn: the site sits in a template-defined function called again after tgtFn is reassigned). The reference binder is applied to every execution independently against the chronological log of wrapper evaluations and invocations: everything up to the first execution that must fail (or returns a non-nil error) must have happened exactly, nothing after it; a sequence stops being judged at the first unspecified execution. (S1) all ordered pairs of signatures (<= 1 fixed parameter x 12 tails) x all calls of <= 2 arguments of a reduced kind set; (S2) ordered pairs over 0-K fixed x 12 tails x 4 result shapes with arguments well typed for either member; (SR) random 2-3 signatures. Sequence cases are non-trivial when the function types differ. TREES: one template with SEVERAL calls of 2-4 recording functions: one after the other (each with its own block, then again without), a call as an argument of a call (the outer receives the inner's typed first result; a block belongs to the call it follows), calls inside the block of a call (three levels), the body optionally inside for (x) in xs with blocks and arguments showing x, that loop optionally entered several times from an outer loop, and four loops of 550-1100 iterations. A reference walk lists the invocations that must happen, in order (arguments, then the block twice, then the call itself), each judged by the reference binder; the walk stops at the first call that must fail (binder error: the error names it; error result: errors.Is) and nothing may happen after it; output = texts + first results. Not judged: a call that fails in the binder while it has calls among its arguments (which arguments are evaluated then is not stated), a failure inside a block (the recorder swallows Block()'s error). (T1) ordered pairs of 10 signatures x 12 shapes; (TR) random trees. Tree cases are always non-trivial."
+const rule = "Signatures: 0-3 fixed parameters from {string,int,float64,bool,interface{},*T,[]int} (core; the slot matrix, the arity matrix and the random phases add fmt.Stringer, error, int64, a named string type, []interface{}, a struct by value, func(int) int), then optionally a trailing options map (map[string]interface{} | hctx.Map) and/or a helper context (plush.HelperContext struct | hctx.HelperContext interface), or a variadic tail (...int|...string|...interface{}|...fmt.Stringer); results (), (T), (T,error) and (error) with nil and non-nil error, T in {string,int,interface{}} returning a fixed non-zero value, plus T returning the zero value (0, the empty string, a nil interface{}) and interface{} returning an ERROR VALUE (generated but not asserted: whether that is the call's value or a failing call is not settled by the statement - excluded class any-result-holding-error). The function is built with reflect.MakeFunc (twelve signatures also exist as hand-written methods) and records every invocation (received values, HasBlock(), Block() called twice). Calls: 0-6 arguments from {string, int, float, true, false, nil, hash literal, array literal, context variables: string, int, float64, bool, *T, typed nil *T, []int, int8, named string, hctx.Map} (core) plus {typed nil map, typed nil slice, error value, fmt.Stringer, struct value, []interface{}, func value, int64, template.HTML, uint, and the expressions a + b, string + string, a == b, !false, slice[i], pointer.Field, map[key], (n)}, literal values depend on the position; each argument optionally wrapped in an order-recording identity helper; with and without a block. ROUTES to the function: by name, through a pointer to the func, as element of a slice (tgtFnArr[1](...), decoys around it), as value of a map, as method through a pointer and through a struct value held in the context. USES of the call's value: emitted, silent tag (must emit nothing), let then emitted by a later tag, argument of a recording helper (the TYPED first result must arrive), and three places where an unknown identifier would be forgiven - condition of an if, operand of !, operand of || - where a function's error fails the render all the same (the errors returned wrap an unknown-identifier error, as a helper that rendered a snippet returns). (E1) every parameter slot type (fixed at positions 0-2, options map, helper context, variadic element 0-2) x every argument kind x block x wrapped/unwrapped; (E2) arity matrix: 0-3 fixed x 12 tails x 21 result shapes x 0..N+1 well-typed arguments x block x wrapped/unwrapped, parameter types rotated; (E4) 12 method signatures x 6 routes x 4 uses x (0..N+1 well-typed arguments + last slot with every core kind) x block; (E5) 21 result shapes x 4 uses x 3 tails x block; (E3) full product of all signatures with <= K core fixed parameters x 12 tails with all calls of <= n arguments of the 18 core kinds x block; (R) random signature x call x route x use, arguments biased to fit. Oracle = reference binder from the statement: invoked exactly once with exactly the supplied values in order (nil => zero value, omitted trailing map => a map that is empty at the moment of the call, and the recorder writes an entry into every empty map it receives, as option-defaulting helpers do, omitted helper context => HasBlock()==block given and Block() renders the block, both times it is called, variadic gets the rest), or not invoked and an error containing the function (method) name (too many arguments / not assignable); first result is the value; non-nil error => errors.Is. Arguments evaluated at most once, left to right, on every path; exactly once on success. Unspecified (not asserted beyond evaluation order): fewer arguments than fixed parameters. Non-trivial = specified and (at least one argument or an auto-supplied parameter). Distinct by signature + template. SEQUENCES: one call site tgtFn(ARGS) is executed 2-3 times within one render, the callee resolving to a recording function of a different signature each time (loop: for (tgtFn) in fns; let: for (i) in idx { let tgtFn = fns[i] }; ufn: the site sits in a template-defined function called again after tgtFn is reassigned). The reference binder is applied to every execution independently against the chronological log of wrapper evaluations and invocations: everything up to the first execution that must fail (or returns a non-nil error) must have happened exactly, nothing after it; a sequence stops being judged at the first unspecified execution. (S1) all ordered pairs of signatures (<= 1 fixed parameter x 12 tails) x all calls of <= 2 arguments of a reduced kind set; (S2) ordered pairs over 0-K fixed x 12 tails x 4 result shapes with arguments well typed for either member; (SR) random 2-3 signatures. Sequence cases are non-trivial when the function types differ. TREES: one template with SEVERAL calls of 2-4 recording functions: one after the other (each with its own block, then again without), a call as an argument of a call (the outer receives the inner's typed first result; a block belongs to the call it follows), calls inside the block of a call (three levels), the body optionally inside for (x) in xs with blocks and arguments showing x, that loop optionally entered several times from an outer loop, and four loops of 550-1100 iterations. A reference walk lists the invocations that must happen, in order (arguments, then the block twice, then the call itself), each judged by the reference binder; the walk stops at the first call that must fail (binder error: the error names it; error result: errors.Is) and nothing may happen after it; output = texts + first results. Not judged: a call that fails in the binder while it has calls among its arguments (which arguments are evaluated then is not stated), a failure inside a block (the recorder swallows Block()'s error). (T1) ordered pairs of 10 signatures x 12 shapes; (TR) random trees. Tree cases are always non-trivial."
 
 func setup(t *testing.T) *vk.Run {
 	r := vk.Start(t, "C12", rule,
